@@ -18,6 +18,8 @@ inductive Op where
   | insertColumn (x : Int) (rep : Nat)
   | appendColumn (rep : Nat)
   | deleteColumn (x : Int)
+  | setCells (x y : Int) (m : List (List (Nat × Nat)))   -- set_cells(matrix, coord): cells with their repeats
+  | setValues (x y : Int) (m : List (List Nat))          -- set_values(matrix, coord)
 
 /-- arguments the API can receive: repeat counts are `repeated or 1`, cells of a row too -/
 def Op.Valid : Op → Prop
@@ -32,6 +34,8 @@ def Op.Valid : Op → Prop
   | .insertColumn _ rep => 1 ≤ rep
   | .appendColumn rep => 1 ≤ rep
   | .deleteColumn _ => True
+  | .setCells _ _ m => ∀ line ∈ m, ∀ c ∈ line, 1 ≤ c.2
+  | .setValues _ _ _ => True
 
 def step (t : Tbl) : Op → Option Tbl
   | .setCell x y c rep => setCell t x y c rep
@@ -45,6 +49,8 @@ def step (t : Tbl) : Op → Option Tbl
   | .insertColumn x rep => insertColumn t x rep
   | .appendColumn rep => some (appendColumnOp t rep)
   | .deleteColumn x => deleteColumn t x
+  | .setCells x y m => setCells t x y m
+  | .setValues x y m => setValues t x y m
 
 open Odf.Grid in
 def gstep (g : Grid) : Op → Grid
@@ -59,6 +65,8 @@ def gstep (g : Grid) : Op → Grid
   | .insertColumn x rep => Grid.insertColumn g x rep
   | .appendColumn rep => Grid.appendColumn g rep
   | .deleteColumn x => Grid.deleteColumn g x
+  | .setCells x y m => Grid.setCells g x y m
+  | .setValues x y m => Grid.setValues g x y m
 
 /-- run a history; `none` as soon as a call raises -/
 def run (t : Tbl) : List Op → Option Tbl
